@@ -21,13 +21,17 @@ from . import core
 PROP = "C19"
 DRIVER = "drv_copy"
 DRIVERS = ["drv_copy", S.DRIVER, O.DRIVER]
-LEAN_MODULES = ["MesaModel.Props.C19", "MesaModel.Props.C19Sets"]
+LEAN_MODULES = ["MesaModel.Props.C19", "MesaModel.Props.C19Sets", "MesaModel.Props.C19Occ"]
 THEOREMS = ["Mesa.Copy." + t for t in (
     "C19_cells_see_own_layers", "C19_copy_sees_own_layers", "C19_copy_faithful", "C19_copy_detached",
     "C19_spaces_never_share", "C19_original_untouched_by_copy", "C19_reject_unchanged")] + [
     "Mesa.CopySet." + t for t in (
         "C19_agentset_reachable_wf", "C19_agentset_copy_faithful", "C19_agentset_copy_without_owners_loses_members",
-        "C19_agentset_frame", "C19_agentset_original_untouched_by_copy", "C19_agentset_copy_detached")]
+        "C19_agentset_frame", "C19_agentset_original_untouched_by_copy", "C19_agentset_copy_detached")] + [
+    "Mesa.CopyOcc." + t for t in (
+        "C19_space_reachable", "C19_space_mirror", "C19_space_capacity", "C19_space_closure", "C19_space_never_share",
+        "C19_space_copy_faithful", "C19_space_copied_agents_point_into_copy", "C19_space_ghost_copy_points_outside",
+        "C19_space_frame", "C19_space_original_untouched_by_copy", "C19_space_copy_detached")]
 COUNTS = {"quick": 400, "thorough": 100000}
 HEADER_LINES = 1
 TRUSTED = [
@@ -36,16 +40,22 @@ TRUSTED = [
     "numpy array copying",
     "AgentSet half (Model/CopySet.lean): CPython reference counting + gc as 'alive iff reachable' (the harness collects before every line and holds agents weakly); one public attribute per agent; sets are never dropped by the program",
     "the identity-level model (Model/Copy.lean) covers grids' dynamic cell class + property descriptors; Network / Voronoi cells have no descriptors",
+    "occupancy half (Model/CopyOcc.lean): one Model per space, copied as the pair (space, model); connections are never edited by the program, so the rebuilt connections of a copy are the shifted ones of the original; the second capacity test of a re-entering `agent.cell = cell` is unreachable (capacity invariant)",
 ]
 ASSUMPTIONS = ["the space is copied together with the agents in it and their model (what deepcopy / pickle of a space does)",
-               "extra layers hold small integers (dtype int); names are chosen among non-clashing identifiers plus the rejected ones"]
+               "extra layers hold small integers (dtype int); names are chosen among non-clashing identifiers plus the rejected ones",
+               "occupancy half: the program places an agent only in cells of the space its model was built with (other cells: refused by the harness as by the model, `err Foreign`) and drops an agent after remove()"]
 RULE = ("a random C06 history (grids of 1-3 axes incl. hex, networks, Voronoi; capacities) plus extra property layers, then "
         "copy deepcopy|pickle, then 4-14 further operations / queries addressed at random to the original or the copy "
         "(placing, moving, removing, new agents, layer writes through cells, fills, layer add/del, neighbourhood and connection "
         "queries, a second-generation copy in thorough); non-trivial = the copy holds at least one agent and at least one "
         "state-changing operation was applied to each side afterwards; distinct by sha1 of op lines.  30 % of the scenarios are "
         "AgentSet histories (harness/c19_sets.py): 1-2 models, agents, 1-2 sets, set / agent operations, one or two copies (of the "
-        "original or of a copy), then operations on either family, every set read back after every operation")
+        "original or of a copy), then operations on either family, every set read back after every operation.  20 % are occupancy "
+        "histories at identity level (harness/c19_occ.py): 1-2 real spaces (Moore / von Neumann in 1-3 axes, hex, networks; capacities "
+        "none / 0 / 1-3) with the connection relation computed by the generator, CellAgents placed, moved, re-entered, taken out, "
+        "removed, refused (full, foreign cell, unknown operand), one or two copies (of a copy too), then operations on any side; every "
+        "space is read back in full (cells, occupancy, pointers, connections, empty layer) after every operation")
 
 LAYER_NAMES = ["v", "w", "heat"]
 BAD_NAMES = ["empty", "capacity", "coordinate"]
